@@ -9,7 +9,7 @@
    proves of the in-memory transport model. *)
 From Coq Require Import List String Bool Arith ZArith Permutation.
 From SV Require Import Model.Pipeline Model.PipelineLib Model.JobQueue Proofs.JobQueue.
-From SV Require Gen.JobQueueGen.
+From SV Require Gen.JobQueueGen Model.Alias Proofs.Alias.
 Import ListNotations.
 
 Definition GF : facts := JobQueueGen.facts.
@@ -255,6 +255,25 @@ Lemma now_non_list_config_reported : JobQueueGen.non_list_config_rejected_silent
 Proof. reflexivity. Qed.
 Lemma now_falsy_payload_kept : JobQueueGen.falsy_payload_replaced = false.
 Proof. reflexivity. Qed.
+(* ---------- the model above treats a job's context as a VALUE.  The in-memory transport passes the context OBJECT by reference
+   and the worker writes the job id into it; Model/Alias.v has the objects.  With one copy per job (fact read from enqueue() on
+   this run; hard obligation) the status of every job carries that job's id whatever objects the callers handed over - the same
+   one for a whole batch, say - and in whatever order the workers ran; without the copy two jobs given one object cross ---------- *)
+Lemma gen_context_copied_at_enqueue : JobQueueGen.context_copied_at_enqueue = true.
+Proof. reflexivity. Qed.
+Theorem C15_status_carries_the_jobs_own_id : forall base given order j,
+  NoDup order -> In j order ->
+  Alias.status_id JobQueueGen.context_copied_at_enqueue base given order j = Some (Some j).
+Proof. intros. rewrite gen_context_copied_at_enqueue. apply Proofs.Alias.copies_keep_jobs_apart; assumption. Qed.
+Theorem C15_shared_context_object_refuted_when : JobQueueGen.context_copied_at_enqueue = false ->
+  exists base given order j, NoDup order /\ In j order /\
+    Alias.status_id JobQueueGen.context_copied_at_enqueue base given order j <> Some (Some j).
+Proof.
+  intros H. rewrite H. exists 10, [3; 3], [0; 1], 0.
+  split; [repeat constructor; cbn; intuition discriminate|]. split; [left; reflexivity|].
+  rewrite (proj1 Proofs.Alias.shared_object_crosses). discriminate.
+Qed.
+Print Assumptions C15_status_carries_the_jobs_own_id.
 Print Assumptions C15_no_loss.
 Print Assumptions C15_future_own_result.
 Print Assumptions C15_future_own_error.
